@@ -46,6 +46,18 @@ def cases(rng, tier):
         free = [c for c in range(1 << n) if not c & act_on(g)]
         c = rng.choice(free)
         cs.append({"kind": "applyraw", "n": n, "raw": gen.random_state(rng, n), "e": ("c", c, g)})
+    # SingleOp::c called directly on an element of a queue (plain, already controlled once or twice): every mask
+    n = 4
+    for _ in range(40 if tier == "quick" else 600):
+        g = gen.random_gate(rng, n)
+        free = [c for c in range(1 << n) if not c & act_on(g)]
+        c1 = rng.choice(free)
+        e = rng.choice([g, ("c", c1, g), ("c", c1, g), ("mul", ("c", c1, g), gen.random_gate(rng, n)), ("dgr", ("c", c1, g))])
+        if rng.random() < 0.3:
+            free2 = [c for c in range(1 << n) if not c & (act_on(g) | c1)]
+            e = ("c", rng.choice(free2), e) if free2 and e[0] != "mul" else e
+        for mask in (range(1 << n) if tier != "quick" else rng.sample(range(1 << n), 6) + [c1, c1 | 1, c1 | 8]):
+            cs.append({"kind": "singlec", "n": n, "idx": rng.choice([0, 0, 0, 1]), "mask": mask, "e": e})
     # act_on / refusal on wide masks
     for _ in range(60):
         w = rng.choice([8, 24, 48, 62])
@@ -65,4 +77,4 @@ if __name__ == "__main__":
     opsmain.main(PROP, cases, "C02 controlled application / refusal / act_on",
                  "C02_semantics, C02_refusal, C02_act_on",
                  "every gate kind x every valid mask x every control mask (disjoint and overlapping) on registers of 1..3(4) "
-                 "qubits via matrix(n); nested controls and controls on products/qft/h on 4 qubits; dense states; wide masks")
+                 "qubits via matrix(n); nested controls and controls on products/qft/h on 4 qubits; dense states; wide masks; SingleOp::c called directly on (already controlled) queue elements, all masks")
